@@ -97,7 +97,13 @@ class RunId(object):
         self._hash = None
 
     def has_same_executable(self, other):
-        return self.executable == other.executable
+        # self.executable is only set once the command line of a run has been
+        # constructed, i.e., when the run is executed for the first time.
+        # The runs that still wait for their turn are compared by the path and
+        # executable configured for their executors.
+        mine = self.benchmark.suite.executor
+        theirs = other.benchmark.suite.executor
+        return mine.path == theirs.path and mine.executable == theirs.executable
 
     @property
     def warmup_iterations(self):
